@@ -7,6 +7,8 @@ from .values import *  # noqa
 from .core import *  # noqa
 from .core import _NOCONST
 from . import frontend
+from . import dyn as D
+from .dyn import VDyn, TDyn
 
 MUTATORS = {"append", "appendleft", "pop", "popleft", "add", "update", "clear", "remove", "setdefault",
             "extend", "insert", "discard", "move_to_end", "popitem", "sort", "reverse"}
@@ -45,6 +47,9 @@ class Interp:
             return VNone()
         if isinstance(t, TUn):
             return VUn(p.fresh(hint, t.sort()), t)
+        if t is TDyn:
+            D.axioms(self)
+            return VDyn(p.fresh(hint, t.sort()))
         if isinstance(t, TOpt):
             v = VOpt(p.fresh(hint, t.sort()), t)
             self._assume_wf_expr(v.t.dt.val(v.e), t.inner, guard=z3.Not(v.is_none()))
@@ -254,6 +259,10 @@ class Interp:
             if self.path.branch(v.present):
                 return v.obj
             return VNone()
+        if isinstance(v, VDyn):
+            if self.spec:
+                raise Unsupported("force a Dyn value in spec mode")
+            return D.view(self, v)
         return v
 
     def truth(self, v):
@@ -269,6 +278,9 @@ class Interp:
             return z3.Length(v.e) > 0
         if isinstance(v, VNone):
             return z3.BoolVal(False)
+        if isinstance(v, VDyn):
+            D.axioms(self)
+            return D.truth(v)
         if isinstance(v, VOpt):
             return z3.And(z3.Not(v.is_none()), self.truth(v.val()))
         if isinstance(v, VSeq):
@@ -313,6 +325,8 @@ class Interp:
             return self.undef_bool()
         if a is b and not isinstance(a, (VReal,)):
             return z3.BoolVal(True)
+        if isinstance(a, VDyn) or isinstance(b, VDyn):
+            return D.py_eq(self, a, b)
         if isinstance(a, VNone) or isinstance(b, VNone):
             if isinstance(a, VNone) and isinstance(b, VNone):
                 return z3.BoolVal(True)
@@ -381,8 +395,10 @@ class Interp:
                 a = a.val()
             if isinstance(b, VOpt):
                 b = b.val()
-        elif isinstance(a, VOpt) or isinstance(b, VOpt):
+        elif isinstance(a, (VOpt, VDyn)) or isinstance(b, (VOpt, VDyn)):
             a, b = self.force(a), self.force(b)
+        if self.spec and (isinstance(a, VDyn) or isinstance(b, VDyn)):
+            return D.py_lt(self, a, b, strict)
         if isinstance(a, VNone) or isinstance(b, VNone):
             self.raise_exc("TypeError", "ordering comparison with None")
         if is_num(a) and is_num(b):
@@ -495,10 +511,17 @@ class Interp:
         return VSeq(arr, z3.IntVal(len(items)), et, kind)
 
     def encodable(self, v):
+        if isinstance(v, VDictRec):
+            try:
+                return VDyn(D.to_dyn(v))
+            except TypeError:
+                return v
         return v
 
     def join_types(self, ts):
         t0 = ts[0]
+        if any(t is TDyn for t in ts):
+            return TDyn
         for t in ts[1:]:
             if t == t0:
                 continue
@@ -675,6 +698,9 @@ class Interp:
     def is_(self, a, b):
         if isinstance(a, VNone) or isinstance(b, VNone):
             return self.eq(a, b)
+        if isinstance(a, VDyn) or isinstance(b, VDyn) or isinstance(getattr(a, "origin", None) and a.origin[0], D._Frozen) \
+                or isinstance(getattr(b, "origin", None) and b.origin[0], D._Frozen):
+            raise Unsupported("'is' on Dyn values (object identity of JSON-like values is not modelled)")
         if isinstance(a, (VObj, VFunc, VClass, VDictRec, VSeq, VMap, VSet, VOpaque)) or \
                 isinstance(b, (VObj, VFunc, VClass, VDictRec, VSeq, VMap, VSet, VOpaque)):
             return z3.BoolVal(a is b)
@@ -1184,7 +1210,7 @@ class Interp:
             return self.empty_map(lt)
         if isinstance(v, VEmptySet) and isinstance(lt, TSet):
             return self.empty_set(lt)
-        if isinstance(lt, (TOpt,)) or lt is TReal:
+        if isinstance(lt, (TOpt,)) or lt is TReal or lt is TDyn:
             try:
                 return lt.wrap(unwrap(v, lt))
             except TypeError:
